@@ -88,3 +88,115 @@ Theorem C03_specification_break_stays_in_its_loop f v body len i x rest sc sc1 o
   each_passes model_call_spec (S f) v body len i (x :: rest) sc = TOk o SigNormal sc2.
 Proof. intros Ha Hr. rewrite each_passes_S, Ha, Hr. reflexivity. Qed.
 Print Assumptions C03_specification_break_stays_in_its_loop.
+
+(* ---- from the token stream: loops with their bodies, @else, @break / @continue / @breakIf / @continueIf are
+   parsed to exactly the tree the tokens spell (Proofs/StmtParse.v), with the fuel the model really uses *)
+From Coq Require Import String.
+From TW Require Import GenToken Lexer Parser Pratt StmtParse.
+
+Theorem C03_tokens_parse_to_the_statement_tree ss eof :
+  wf_ss ss -> ttype eof = T_EOF ->
+  parse_tokens (flats ss ++ [eof]) = ParsedOk (mkProgram (asts ss) None [] [] []).
+Proof. exact (template_parses_to_its_tree ss eof). Qed.
+Print Assumptions C03_tokens_parse_to_the_statement_tree.
+
+Example C03_lexed_loop_is_a_tree :
+  exists ss eof,
+    lex_all (bs "@each(v in xs)[{{ v }}@breakIf(v == 2)@continue]@else none@end"%string) = Some (flats ss ++ [eof]) /\
+    ttype eof = T_EOF /\ wf_ss ss.
+Proof.
+  destruct (lex_all (bs "@each(v in xs)[{{ v }}@breakIf(v == 2)@continue]@else none@end"%string)) as [ts|] eqn:E; [|vm_compute in E; discriminate E].
+  vm_compute in E. injection E as <-.
+  match goal with |- exists ss eof, Some (?kw :: ?lp :: ?v :: ?inn :: ?xs :: ?rp :: ?t1 :: ?lb :: ?v2 :: ?rb :: ?bk :: ?blp :: ?v3 :: ?eq :: ?two :: ?brp ::
+                                         ?ct :: ?t2 :: ?te :: ?t3 :: ?en :: ?eoft :: nil) = _ /\ _ =>
+    exists [TEach kw lp v inn rp en (CAtom xs)
+                  [TText t1; TCode lb rb (CAtom v2); TBreakIf bk blp brp (CBin eq (CAtom v3) (CAtom two)); TContinue ct; TText t2]
+                  (Some (te, [TText t3]))], eoft
+  end.
+  split; [reflexivity|]. split; [reflexivity|].
+  cbn [wf_ss wf_s wf wf_list_with llev rlev]. unfold tprec, INF. cbn [ttype].
+  repeat split; try reflexivity; try discriminate; try (vm_compute; lia).
+Qed.
+
+(* ---- both halves together: from the token stream of a loop to its output *)
+From TW Require Import Template TemplatePipeline.
+
+Theorem C03_from_tokens_to_output ss ns eof fs (data : list (bytes * value)) :
+  wf_ss ss -> Dens ss ns -> ttype eof = T_EOF ->
+  forallb (fun kv : bytes * value => clean (snd kv)) data = true -> nodes_ok ns ->
+  parse_tokens (flats ss ++ [eof]) = ParsedOk (mkProgram (map cnode ns) None [] [] []) /\
+  exists K, forall fm, (K <= fm)%nat ->
+    match run_nodes model_call_spec fs [data] ns with
+    | TOk out SigNormal _ => exists en', eval_program cx0 fm [data] (map cnode ns) [] = Ok (out, en')
+    | TOk _ _ _ => True
+    | TFail => exists ln msg, eval_program cx0 fm [data] (map cnode ns) [] = Fail ln msg
+    | TNoFuel | TUnprintable => True
+    end.
+Proof. exact (template_tokens_render ss ns eof fs data). Qed.
+Print Assumptions C03_from_tokens_to_output.
+
+Example C03_lexed_loop_renders :
+  let ns := [NEach (bs "v") (XVar (bs "xs"))
+               [NText (bs "["); NPrint (XVar (bs "v")); NBreakIf (XBin BEq (XVar (bs "v")) (XInt 2)); NContinue; NText (bs "]")]
+               (Some [NText (bs " none")])]%string in
+  exists ss eof,
+    lex_all (bs "@each(v in xs)[{{ v }}@breakIf(v == 2)@continue]@else none@end"%string) = Some (flats ss ++ [eof]) /\
+    ttype eof = T_EOF /\ wf_ss ss /\ Dens ss ns /\ nodes_ok ns /\
+    (exists sc, run_nodes model_call_spec 20 [[(bs "xs", VArr [VInt 1; VInt 2; VInt 3])]]%string ns = TOk (bs "[1[2"%string) SigNormal sc) /\
+    (exists sc, run_nodes model_call_spec 20 [[(bs "xs", VArr [])]]%string ns = TOk (bs " none"%string) SigNormal sc).
+Proof.
+  intro ns.
+  destruct (lex_all (bs "@each(v in xs)[{{ v }}@breakIf(v == 2)@continue]@else none@end"%string)) as [ts|] eqn:E; [|vm_compute in E; discriminate E].
+  vm_compute in E. injection E as <-.
+  match goal with |- exists ss eof, Some (?kw :: ?lp :: ?v :: ?inn :: ?xs :: ?rp :: ?t1 :: ?lb :: ?v2 :: ?rb :: ?bk :: ?blp :: ?v3 :: ?eq :: ?two :: ?brp ::
+                                         ?ct :: ?t2 :: ?te :: ?t3 :: ?en :: ?eoft :: nil) = _ /\ _ =>
+    exists [TEach kw lp v inn rp en (CAtom xs)
+                  [TText t1; TCode lb rb (CAtom v2); TBreakIf bk blp brp (CBin eq (CAtom v3) (CAtom two)); TContinue ct; TText t2]
+                  (Some (te, [TText t3]))], eoft
+  end.
+  split; [reflexivity|]. split; [reflexivity|].
+  split.
+  { cbn [wf_ss wf_s wf wf_list_with llev rlev]. unfold tprec, INF. cbn [ttype].
+    repeat split; try reflexivity; try discriminate; try (vm_compute; lia). }
+  split.
+  { subst ns. apply DsCons; [|apply DsNil].
+    apply DEach'.
+    - reflexivity.
+    - reflexivity.
+    - cbn. repeat split.
+    - apply DsCons; [apply DText'; reflexivity|].
+      apply DsCons; [apply DCode; cbn; repeat split|].
+      apply DsCons; [apply DBreakIf; [reflexivity|cbn; repeat split]|].
+      apply DsCons; [apply DContinue|].
+      apply DsCons; [apply DText'; reflexivity|apply DsNil].
+    - apply DlSome. apply DsCons; [apply DText'; reflexivity|apply DsNil]. }
+  split; [subst ns; cbn; repeat split; lia|].
+  split; eexists; vm_compute; reflexivity.
+Qed.
+
+(* ---- from the source BYTES: a source that spells a checked list of items (Proofs/LexRound.v) whose
+   tokens are those of ss, where ss spells the specification template ns, is lexed to those tokens,
+   parsed to the program of ns and rendered by the model of EvaluateString as the specification says *)
+From TW Require Import Render LexRound.
+
+Theorem C03_from_source_bytes_to_output its ss ns eof fs gd (data : list (bytes * value)) :
+  source_ok its = true -> place (spell its) 0 its = flats ss ++ [eof] -> wf_ss ss -> Dens ss ns ->
+  env_from_map gd = EnvOk [data] ->
+  forallb (fun kv : bytes * value => clean (snd kv)) data = true -> nodes_ok ns ->
+  lex_all (spell its) = Some (flats ss ++ [eof]) /\
+  parse_source (spell its) = ParsedOk (mkProgram (map cnode ns) None [] [] []) /\
+  exists K, (K <= eval_fuel)%nat ->
+    match run_nodes model_call_spec fs [data] ns with
+    | TOk out SigNormal _ => evaluate_string cx0 (spell its) gd = RenderOk out
+    | TOk _ _ _ => True
+    | TFail => exists ln msg, evaluate_string cx0 (spell its) gd = RenderErr ln msg
+    | TNoFuel | TUnprintable => True
+    end.
+Proof. exact (source_renders its ss ns eof fs gd data). Qed.
+Print Assumptions C03_from_source_bytes_to_output.
+
+Example C03_source_in_the_domain_and_rendered :
+  in_domain (bs "@each(v in xs)[{{ v }}@breakIf(v == 2)@continue]@else none@end"%string) = true /\
+  evaluate_string cx0 (bs "@each(v in xs)[{{ v }}@breakIf(v == 2)@continue]@else none@end"%string)
+    [(bs "xs"%string, GSlice [GInt 1; GInt 2; GInt 3])] = RenderOk (bs "[1[2"%string).
+Proof. split; vm_compute; reflexivity. Qed.
